@@ -88,12 +88,39 @@ pub fn parse_with_pos(src: &str) -> Result<Program, (String, String, usize)> {
 
 /// parse(x) = A1 => format_source(x) = Ok(y), parse(y) = A2, canon(A1) == canon(A2).
 pub fn roundtrip(x: &str) -> RoundTrip {
+    roundtrip_with(x, None)
+}
+
+/// Formatter configurations exercised besides the default (index 0 = default): indent width 2/4/8, line length
+/// 40/88/200, all quote styles.
+pub fn config(i: usize) -> Option<incan::FormatConfig> {
+    use incan::format::QuoteStyle;
+    let c = incan::FormatConfig::default();
+    match i % 6 {
+        0 => None,
+        1 => Some(c.with_indent_width(2).with_line_length(40).with_quote_style(QuoteStyle::Single)),
+        2 => Some(c.with_indent_width(8).with_line_length(88)),
+        3 => Some(c.with_indent_width(4).with_line_length(200).with_quote_style(QuoteStyle::Preserve)),
+        4 => Some(c.with_indent_width(8).with_line_length(40).with_quote_style(QuoteStyle::Single)),
+        _ => Some(c.with_indent_width(2).with_line_length(200)),
+    }
+}
+
+pub fn format_with(x: &str, cfg: Option<&incan::FormatConfig>) -> Result<String, incan::format::FormatError> {
+    match cfg {
+        None => incan::format_source(x),
+        Some(c) => incan::format_source_with_config(x, c.clone()),
+    }
+}
+
+/// Same oracle through `format_source_with_config` when `cfg` is given.
+pub fn roundtrip_with(x: &str, cfg: Option<&incan::FormatConfig>) -> RoundTrip {
     let a1 = match crate::util::catch(|| parse_with_pos(x)) {
         Ok(Ok(p)) => p,
         Ok(Err((stage, msg, _))) => return RoundTrip::NotParsed(format!("{stage}: {msg}")),
         Err(p) => return RoundTrip::NotParsed(format!("front end panicked: {p}")),
     };
-    let y = match crate::util::catch(|| incan::format_source(x)) {
+    let y = match crate::util::catch(|| format_with(x, cfg)) {
         Ok(Ok(y)) => y,
         Ok(Err(e)) => {
             return RoundTrip::Fail { a1, failure: Failure { sig: "fmt-error".into(), detail: format!("format_source returned Err on a parseable input: {e}"), formatted: None } }
